@@ -175,6 +175,56 @@ Theorem parse_unregistered : forall r n specv has_id V exts,
 Proof. exact parse_dispatch_unregistered. Qed.
 Print Assumptions parse_unregistered.
 
+(* the default path: no version is forced and utils.detect_spec_version decides (a bundle's own
+   version detection recurses into its members and is left to C14: DUnmodelled) *)
+Theorem parse_registered_object_default_21 : forall vt r q r' ops has_id ac exts,
+  decorate vt r q = (r', Done) -> r_kind q = Objects -> r_ver q = V21 -> r_name q <> s_bundle ->
+  parse_dispatch (state_after vt r' ops) (r_name q) (Some s_v21) has_id None ac exts = DClass (r_cls q).
+Proof. exact parse_default_object_21. Qed.
+Print Assumptions parse_registered_object_default_21.
+
+Theorem parse_registered_object_default_20 : forall vt r q r' ops has_id ac exts,
+  decorate vt r q = (r', Done) -> r_kind q = Objects -> r_ver q = V20 -> r_name q <> s_bundle ->
+  (has_id = false \/ lookup (state_after vt r' ops) V21 Observables (r_name q) = None) ->
+  parse_dispatch (state_after vt r' ops) (r_name q) None has_id None ac exts = DClass (r_cls q).
+Proof. exact parse_default_object_20. Qed.
+Print Assumptions parse_registered_object_default_20.
+
+Theorem parse_registered_observable_default_21 : forall vt r q r' ops specv ac,
+  decorate vt r q = (r', Done) -> r_kind q = Observables -> r_ver q = V21 -> r_name q <> s_bundle ->
+  (specv = None \/ specv = Some s_v21) ->
+  parse_observable_dispatch (state_after vt r' ops) (r_name q) specv true None ac = DClass (r_cls q).
+Proof. exact parse_default_observable_21. Qed.
+Print Assumptions parse_registered_observable_default_21.
+
+Theorem parse_registered_observable_default_20 : forall vt r q r' ops ac,
+  decorate vt r q = (r', Done) -> r_kind q = Observables -> r_ver q = V20 ->
+  parse_observable_dispatch (state_after vt r' ops) (r_name q) None false None ac = DClass (r_cls q).
+Proof. exact parse_default_observable_20. Qed.
+Print Assumptions parse_registered_observable_default_20.
+
+(* markings (MarkingDefinition.__init__) and extensions (ExtensionsProperty.clean) *)
+Theorem marking_dispatch_registered : forall vt r q r' ops,
+  decorate vt r q = (r', Done) -> r_kind q = Markings ->
+  marking_dispatch (state_after vt r' ops) (r_ver q) (r_name q) = DClass (r_cls q).
+Proof. exact marking_dispatch_registered_lemma. Qed.
+Print Assumptions marking_dispatch_registered.
+
+Theorem extension_dispatch_registered : forall vt r q r' ops ac ok,
+  decorate vt r q = (r', Done) -> r_kind q = Extensions ->
+  extension_dispatch (state_after vt r' ops) (r_ver q) (r_name q) ac ok = DClass (r_cls q).
+Proof. exact extension_dispatch_registered_lemma. Qed.
+Print Assumptions extension_dispatch_registered.
+
+Theorem marking_dispatch_unregistered : forall r V n, lookup r V Markings n = None -> marking_dispatch r V n = DExc EValue.
+Proof. exact marking_dispatch_unregistered_lemma. Qed.
+Print Assumptions marking_dispatch_unregistered.
+
+Theorem extension_dispatch_unregistered : forall r V n ac ok, lookup r V Extensions n = None ->
+  forall c, extension_dispatch r V n ac ok <> DClass c.
+Proof. exact extension_dispatch_unregistered_lemma. Qed.
+Print Assumptions extension_dispatch_unregistered.
+
 (* ---------------- the naming rules ---------------- *)
 
 (* repaired recognisers (`\Z` anchor; single hyphens in 2.1): exactly the rule *)
@@ -355,6 +405,11 @@ Example ex_double_hyphen_as_found : snd (decorate as_found builtin_registry (ex_
 Proof. vm_compute. reflexivity. Qed.
 
 Example ex_double_hyphen_repaired : snd (decorate repaired builtin_registry (ex_req V21 "x--double")) = Failed EValue.
+Proof. vm_compute. reflexivity. Qed.
+
+Example ex_parse_default_version :
+  parse_dispatch (fst (decorate as_found builtin_registry (ex_req V21 "x-new"))) (u "x-new") (Some s_v21) true None false []
+  = DClass (u "stix2.custom.C").
 Proof. vm_compute. reflexivity. Qed.
 
 Example ex_strict_rule_satisfiable : strict_type_rule repaired V20 /\ strict_type_rule repaired V21.
